@@ -35,7 +35,7 @@ ASSUMPTIONS = ["the grid is the one the raster itself reports (xmin, ymin, ncol,
                "an observation on a cell border may be assigned to any cell whose closed footprint contains it (1e-9); the "
                "assignment reported by Raster.getCell is tried first, every other admissible assignment is accepted too",
                "no-data value = -99999.0 (Raster's documented default); values compared with 1e-9*max(1,|expected|)",
-               "aggregates are the six built-in operators co_count, co_sum, co_min, co_max, co_avg, co_median, one feature 'v'",
+               "aggregates are the six built-in operators co_count, co_sum, co_min, co_max, co_avg, co_median on one feature 'v'; in the reversed-order request a unit feature 'w' (1.0 per observation) is interleaved and its count and sum maps are judged too",
                "lattice [0,4]^2 with a fixed diagonal track (0,0)-(4,4); value alphabet {1, 2, -3, 0, NaN}; "
                "3-fix and 4-fix families use 1-2 positions only (they exercise the aggregates, not the geometry)"]
 N_VARIANTS = 4
@@ -60,6 +60,7 @@ SPLITS3 = [(3,), (2, 1), (1, 1, 1)]
 SPLITS4 = [(2, 2), (1, 3)]
 
 OBLIGATIONS = {
+    "second_feature_interleaved": "a second (unit) feature was requested between the maps of the first one and its count / sum per cell judged",
     "aggregates_in_reversed_order": "the same collection summarised with the aggregates requested in the reversed order (median first)",
     "cell_with_two_values": "a cell collects >= 2 non-NaN values",
     "cell_with_nan_and_value": "a cell collects a NaN and a non-NaN value",
@@ -115,6 +116,7 @@ def _track(variant, fixes, k):
         x, y = alpha.xy(variant, px, py)
         t.addObs(Obs(ENUCoords(x, y, 0.0), alpha.obstime(t0 + 10 * k + i)))
     t.createAnalyticalFeature("v", [_val(variant, f[2]) for f in fixes])
+    t.createAnalyticalFeature("w", [1.0] * len(fixes))      # second feature: one unit per observation, never NaN
     return t
 
 
@@ -332,7 +334,13 @@ def check_summ(variant, tracks, res, margin, ctx, order="listed"):
             x, y = alpha.xy(variant, px, py)
             fixes.append((x, y, _val(variant, v)))
     names = [a for a, _ in AGGS]
-    st, r = guard(summarize, col, ["v"] * len(AGGS), [f for _, f in AGGS], resolution, margin, False)
+    req_f, req_a = ["v"] * len(AGGS), [f for _, f in AGGS]
+    if order == "reversed":
+        # the second feature is requested in between (positions 1 and 4), so the maps of 'v' are not adjacent in the request
+        req_f = ["v", "w", "v", "v", "w", "v", "v", "v"]
+        req_a = [req_a[0], co_count, req_a[1], req_a[2], co_sum, req_a[3], req_a[4], req_a[5]]
+        ctx.oblige("second_feature_interleaved")
+    st, r = guard(summarize, col, req_f, req_a, resolution, margin, False)
     rasters, failed = {}, {}
     if st == "ok":
         rasters = {a: r for a in names}
@@ -401,6 +409,7 @@ def check_summ(variant, tracks, res, margin, ctx, order="listed"):
                           {"sum_of_counts": tot, "observations_with_a_value": n_obs, "count_grid": grids["count"]})
             return nontrivial
     bad = _mismatch(G, grids, cells)
+    acc_cells = cells
     if bad and any(len(c) > 1 for c in cand):
         # an observation on a border may sit in any cell whose closed footprint contains it
         n_alt = 1
@@ -419,6 +428,7 @@ def check_summ(variant, tracks, res, margin, ctx, order="listed"):
                 if not _mismatch(G, grids, alt_cells):
                     ctx.count("border_assignment_other_than_getCell_accepted")
                     bad = {}
+                    acc_cells = alt_cells
                     break
     for name in sorted(bad):
         row, c, got, exp, raw = bad[name]
@@ -426,6 +436,27 @@ def check_summ(variant, tracks, res, margin, ctx, order="listed"):
                       {"aggregate": name, "row": row, "col": c, "got": got, "expected": exp, "cell_values": raw, "grid": G})
     if bad:
         return nontrivial
+    if order == "reversed" and st == "ok":
+        # the unit feature: its count and its sum per cell are the number of observations located there
+        for mname in ("w#co_count", "w#co_sum"):
+            stw, gw = guard(lambda: r.getAFMap(mname).grid)
+            okw = stw == "ok" and isinstance(gw, list) and len(gw) == G["nrow"] and \
+                all(isinstance(row, list) and len(row) == G["ncol"] for row in gw)
+            if not okw:
+                ctx.violation("summarize/second-feature/malformed-grid", case, {"map": mname})
+                return nontrivial
+            tot = sum(v for row in gw for v in row if _num(v) and v == v)
+            if tot != len(fixes):
+                ctx.violation("summarize/second-feature/total-differs-from-number-of-observations", case,
+                              {"map": mname, "total": tot, "observations": len(fixes), "grid": gw})
+                return nontrivial
+            for row in range(G["nrow"]):
+                for c in range(G["ncol"]):
+                    n_here = len(acc_cells.get((c, row), []))
+                    if not _close(gw[row][c], n_here):
+                        ctx.violation("summarize/second-feature/wrong-value", case,
+                                      {"map": mname, "row": row, "col": c, "got": gw[row][c], "expected": n_here})
+                        return nontrivial
     ctx.outcome(("summ", G["ncol"], G["nrow"], len(cells), tuple(sorted({_cell_class(v) for v in cells.values()}))))
     return nontrivial
 
